@@ -1,11 +1,12 @@
 -------------------------------- MODULE NNSMC --------------------------------
 (* Model-checking wrapper of NNS.tla: bounded constants, the reference      *)
 (* machine g of the properties as a ghost variable, the properties as       *)
-(* action formulas, and the scenario emitter used with `tlc -simulate`.     *)
+(* action formulas (C10, C11, C12 and the extension X03), and the scenario  *)
+(* emitter used with `tlc -simulate`.                                       *)
 EXTENDS NNS, Json
 
 VARIABLES g, steps, hist
-mcvars == <<now, roots, ns, supply, bal, idx, rec, soa, ev, g, steps, hist>>
+mcvars == <<now, roots, ns, supply, bal, idx, rec, soa, price, ev, g, steps, hist>>
 
 \* ---- quick: one TLD, a chain of three names (so that a name two levels below its token exists) ----
 Q_Par        == ("t" :> Nil) @@ ("a.t" :> "t") @@ ("b.a.t" :> "a.t") @@ ("c.b.a.t" :> "b.a.t")
@@ -37,6 +38,14 @@ S_DataOf     == ("A" :> {"1.1.1.1", "2.2.2.2", "3.3.3.3"}) @@ ("TXT" :> {"x", "y
                 @@ ("CNAME" :> {"a.t", "b.t", "a.u", "b.a.t", "c.a.t", "c.b.a.t", "d.c.b.a.t"})
 S_RTypes     == {"A", "CNAME", "TXT", "AAAA", "SOA", "BAD"}
 
+\* ---- prices (price units: 16 = 1 GAS, see NNS.tla): -1, 0, 1, the default 10 GAS, maxRegisterPrice = 10 000 GAS
+\* (above the 5 000 GAS a transaction of the driver can burn), maxRegisterPrice + 1 ----
+P_Def    == 160
+P_Max    == 160000
+P_Cap    == 80000
+P_Prices == {-1, 0, 1, P_Def, P_Max, P_Max + 1}
+P_Few    == {-1, 0, P_Def, P_Max + 1}
+
 CONSTANTS MaxSteps, MaxNow, SimLen
 
 MCInit == Init /\ g = GInit /\ steps = 0 /\ hist = <<>>
@@ -44,7 +53,7 @@ MCNext == Next /\ g' = GNext(g, ev', now) /\ steps' = steps + 1 /\ hist' = <<>>
 MCSpec == MCInit /\ [][MCNext]_mcvars
 
 Bounded == steps <= MaxSteps /\ now <= MaxNow
-MCView  == <<now, roots, ns, supply, bal, idx, rec, soa, g, steps>>
+MCView  == <<now, roots, ns, supply, bal, idx, rec, soa, price, g, steps>>
 
 \* ---- simulation: arguments are drawn at random, signers with a bias towards the authorised ones ----
 One(X) == IF X = {} THEN {} ELSE {RandomElement(X)}
@@ -77,8 +86,21 @@ SimVia(n, o) == IF KC \notin Owners THEN {FALSE}
                 ELSE One({FALSE, FALSE, FALSE, TRUE})
 SimNames == LET live == {n \in NT : ns[n].ex} IN IF live # {} /\ RandomElement(1..3) > 1 THEN One(live \cup {m \in NT : Par[m] \in live}) ELSE One(NT)
 
+\* setPrice: mostly by the committee; while no name can be registered (price 0 or beyond the transaction's GAS)
+\* a usable price is restored soon, so that the rest of the scenario stays productive
+Unusable == ~BurnOK(price)
+SimPriceSigners ==
+  LET r == RandomElement(1..10) IN
+  IF r <= 5 THEN {{"CMT"}}
+  ELSE IF r = 6 THEN {{"X"}} ELSE IF r = 7 THEN {{"M1"}} ELSE IF r = 8 THEN {{"ALPHA"}}
+  ELSE One(SignerSets)
+SimPrices == IF Unusable THEN One({DefPrice, 1, RandomElement(Prices)}) ELSE One(Prices)
+
 SimStep ==
   \/ \E d \in One(Ticks) : Tick(d)
+  \/ \E p \in SimPrices : \E S \in SimPriceSigners, v \in One(Vias) : SetPrice(S, v, p)
+  \/ Unusable /\ \E p \in One({DefPrice, DefPrice, 1, 2 * DefPrice}) : SetPrice({"CMT"}, FALSE, p)
+  \/ Unusable /\ \E p \in One({DefPrice, 1}) : \E S \in SimPriceSigners : SetPrice(S, FALSE, p)
   \/ \E n \in One(Names \ NT), m \in One(Mails), x \in One(Expires) : \E S \in SimSigners(n, "CMT"), v \in SimVia(n, Nil) : RegisterTLD(S, v, n, m, x)
   \/ \E n \in One(NT), o \in One(Owners), m \in One(Mails), x \in One(Expires) : \E S \in SimSigners(n, o), v \in SimVia(n, o) : Register(S, v, n, o, m, x)
   \/ \E n \in One(NT), o \in One(Owners), m \in One(Mails), x \in One(Expires) : \E S \in SimSigners(n, o), v \in SimVia(n, o) : Register(S, v, n, o, m, x)
@@ -116,12 +138,14 @@ Inv_C12 == \A api \in {ApiModel(Dev)} :
            /\ WellFormed(g.rec)
 P_C10 == [][C10_RegisterFree(g, ev', now) /\ C10_Renew(g', ev', now) /\ C10_Announced(g, g', ev')]_mcvars
 P_C11 == [][C11_UnauthorisedInert(g, ev', now)]_mcvars
+P_X03 == [][/\ X03_PriceGate(ev', price, price') /\ X03_PriceStored(ev', price, price')
+            /\ X03_RegisterNeedsPrice(ev', price)]_mcvars
 P_C12 == [][/\ C12_Lists(g, g') /\ C12_Ops(g, ev', now) /\ C12_RegisterConflict(g, ev')
             /\ C12_Serial(g, ev', now, now', [soa |-> [n \in NT |-> MSoa(Dev, n)]'])]_mcvars
 
 \* the storage agrees with the reference machine (binding of the two views inside the Spec)
 Inv_Ref == /\ \A n \in Names : g.reg[n] = ns[n]
            /\ g.rec = rec
-TypeOK  == supply \in Nat /\ \A o \in Owners : bal[o] \in Nat
+TypeOK  == supply \in Nat /\ (\A o \in Owners : bal[o] \in Nat) /\ price \in 0..MaxPrice
 
 =============================================================================
